@@ -19,7 +19,8 @@ theorem visc_s0 (x : ℝ) : pyDot (h0v : List ℝ) (PArr.slice (powerArray x tic
       + (5734491051606083 / 9007199254740992 : ℝ) * (x * x) + (-(8704737503766789 : ℝ) / 36028797018963968) * (x * x * x) := by
   obtain ⟨last, h⟩ := ticv_array x
   rw [h]
-  simp [pyDot, PArr.slice, h0v, tf_lit, tf_mul, tf_add]
+  simp [pyDot, PArr.slice, h0v, tf_lit, tf_mul, tf_add, tf_fma]
+  ring
 
 theorem visc_s0_pos (x : ℝ) (h0 : 0 < x) (h1 : x ≤ 13 / 5) :
     0 < (3777439223453277 / 2251799813685248 : ℝ) * 1 + (4964362905246771 / 2251799813685248 : ℝ) * x
